@@ -264,6 +264,12 @@ fn part_kinds(ctx: &mut Ctx) {
                         continue;
                     }
                 };
+                if job % 7 == 0 {
+                    match lb::cross_check(&sel) {
+                        Ok(()) => ctx.rep.traces_validated += 1,
+                        Err(e) => ctx.rep.machinery(e),
+                    }
+                }
                 if sel.out.code != Ok(0) {
                     ctx.rep.violation("C13 non-zero status on a readable sandbox", format!("find {:?}\n{}", sel.argv, sel.out.brief()), json!({"prop":"C13","part":"kinds","argv":sel.argv}));
                     continue;
